@@ -433,6 +433,34 @@ def stop_lattice(tier, long_cases, cap_long, budget):
                 s = dict(c)
                 s.update(fam="stop", tol=tol, cap=cap)
                 out.append(s)
+    # tolerances that separate the stated stop rule (largest force component of the CURRENT evaluation, over the whole
+    # batch) from a per-molecule "has been below the tolerance once" rule: they exist where a member's largest force
+    # is not monotone along the trajectory (step factors near the stability limit)
+    for c in long_cases:
+        names, _, _ = SYSTEMS[c["system"]]
+        t = _TRAJ.get(traj_key(c))
+        if len(names) < 2 or c.get("prior") or c["cap"] != cap_long or t is None or t["error"] or len(t["f"]) < 3:
+            continue
+        F = np.abs(t["f"])
+        per = F.reshape(F.shape[0], F.shape[1], -1).max(axis=2)  # (iteration, molecule)
+        allm = per.max(axis=1)
+        best = np.minimum.accumulate(per, axis=0)
+        found = 0
+        for tol in sorted({float(v) for v in per.reshape(-1)}, reverse=True):
+            true_stop = next((i for i, v in enumerate(allm, start=1) if v <= tol), None)
+            sticky = next((i for i in range(1, len(per) + 1) if (best[i - 1] <= tol).all()), None)
+            if sticky is None or sticky == true_stop or sticky + 1 > min(budget, len(per)):
+                continue
+            # the stated rule is still running at evaluation sticky + 1 (it stops there only through the cap)
+            for cap in sorted({sticky + 1, min(len(per), (true_stop or len(per)) + 1, budget)}):
+                if model_stop(allm, tol, cap) is None:
+                    continue
+                s_ = dict(c)
+                s_.update(fam="stop", tol=tol, cap=cap)
+                out.append(s_)
+            found += 1
+            if found == 2:
+                break
     return out, skipped
 
 
